@@ -1,12 +1,339 @@
 /-
-  Props.C09 — the theorems that decide property C09 (see DESIGN.md §7).
+  Props.C09 — each built-in function returns the value its specification
+  defines (DESIGN.md §7, C09).  Laws proved for the model's handlers (the
+  table wiring name → handler is `generated_sigs_ok`).  Where the law is the
+  handler's definition (abs, ceil, floor, type, join, …) there is no theorem:
+  the tie to the code is the correspondence stream `fn`.
 -/
 import Props.Tables
+import Proofs.FunctionsJson
 namespace Jmes.Props
-open Jmes
+open Jmes Jmes.Fn
 
 theorem C09_generated_table_ok : TableOK Generated.table = true := generated_table_ok
+/-- every name is wired to its own handler ("max" ↦ jpfMax, …) with the specified signature -/
 theorem C09_generated_sigs_ok : SigsOK Generated.functionTable Spec.functionTable = true := generated_sigs_ok
 theorem C09_generated_lex_ok : LexTablesOK Model.lexTables Spec.lexTables = true := generated_lex_ok
+
+variable {N : Type} [NumOps N]
+
+/-! ### sort / sort_by: ascending, a permutation, stable -/
+
+def leNum (a b : N) : Bool := !NumOps.lt b a
+
+theorem leNum_total [NumLaws N] (a b : N) : (leNum a b || leNum b a) = true := by
+  unfold leNum
+  cases h1 : NumOps.lt b a <;> cases h2 : NumOps.lt a b <;> simp
+  have := NumLaws.lt_trans a b a h2 h1
+  rw [NumLaws.lt_irrefl] at this
+  cases this
+
+theorem leNum_trans [NumLaws N] (a b c : N) (h1 : leNum a b = true) (h2 : leNum b c = true) : leNum a c = true := by
+  unfold leNum at *
+  simp only [Bool.not_eq_true'] at *
+  cases hca : NumOps.lt c a
+  · rfl
+  · exfalso
+    rcases NumLaws.lt_total a b with hab | hab | hab
+    · have := NumLaws.lt_trans c a b hca hab; rw [h2] at this; cases this
+    · subst hab; rw [h2] at hca; cases hca
+    · rw [h1] at hab; cases hab
+
+/-- `sort` on numbers: the result is a permutation of the input, ascending
+    (no element is greater than a later one), and stable (elements that are
+    already in order keep their relative order — `<+` is the sublist relation). -/
+theorem C09_sort_numbers [NumLaws N] (xs : List N) :
+    (List.mergeSort xs leNum).Perm xs ∧ (List.mergeSort xs leNum).Pairwise (fun a b => NumOps.lt b a = false) ∧
+    ∀ ys : List N, ys.Pairwise (fun a b => leNum a b = true) → ys.Sublist xs → ys.Sublist (List.mergeSort xs leNum) := by
+  refine ⟨List.mergeSort_perm xs leNum, ?_, ?_⟩
+  · have := List.pairwise_mergeSort (le := leNum) (fun a b c => leNum_trans a b c) (fun a b => leNum_total a b) xs
+    exact this.imp (fun h => by simpa [leNum] using h)
+  · intro ys hp hs
+    exact List.sublist_mergeSort (le := leNum) (fun a b c => leNum_trans a b c) (fun a b => leNum_total a b) hp hs
+
+/-- The handler is that sort. -/
+theorem C09_sort_handler (xs : List (Val N)) (ns : List N) (h : allNums xs = some ns) :
+    handle .sort false [.val (.arr xs)] = .ok (.arr ((List.mergeSort ns leNum).map .num)) := by
+  simp only [handle, Bool.false_eq_true, if_false, toArrayNum, h]
+  rfl
+
+def leKey (a b : N × Val N) : Bool := !NumOps.lt b.1 a.1
+
+/-- `sort_by` with number keys: a stable ascending sort by key — a permutation
+    of the (key, element) pairs, ascending in the key, preserving the order of
+    elements whose keys are already in order (in particular of equal keys). -/
+theorem C09_sort_by_is_stable_sort [NumLaws N] (ps : List (N × Val N)) :
+    (List.mergeSort ps leKey).Perm ps ∧ (List.mergeSort ps leKey).Pairwise (fun a b => NumOps.lt b.1 a.1 = false) ∧
+    ∀ a b, leKey a b = true → [a, b].Sublist ps → [a, b].Sublist (List.mergeSort ps leKey) := by
+  have ht : ∀ a b c : N × Val N, leKey a b = true → leKey b c = true → leKey a c = true :=
+    fun a b c => leNum_trans a.1 b.1 c.1
+  have htot : ∀ a b : N × Val N, (leKey a b || leKey b a) = true := fun a b => leNum_total a.1 b.1
+  refine ⟨List.mergeSort_perm ps leKey, ?_, ?_⟩
+  · exact (List.pairwise_mergeSort (le := leKey) ht htot ps).imp (fun h => by simpa [leKey] using h)
+  · intro a b hab hs
+    exact List.pair_sublist_mergeSort (le := leKey) ht htot hab hs
+
+/-- … and the keys are evaluated by applying the expression reference to each element. -/
+theorem C09_sort_by_handler (f : Val N → Res (Val N)) (x y : Val N) (rest : List (Val N)) (k0 : N) (ks : List (N × Val N))
+    (h0 : f x = .ok (.num k0)) (hk : keysNum f (y :: rest) = .ok (some ks)) :
+    sortBy f (x :: y :: rest) = .ok (.arr ((List.mergeSort ((k0, x) :: ks) leKey).map (·.2))) ∧
+    ks.map (·.2) = y :: rest := by
+  refine ⟨?_, keysNum_snd f _ ks hk⟩
+  simp only [sortBy, h0, hk]
+  rfl
+
+/-! ### max / min -/
+
+theorem maxNum_ge [NumLaws N] : ∀ (best : N) (xs : List N), NumOps.lt (maxNum best xs) best = false ∧
+    ∀ x ∈ xs, NumOps.lt (maxNum best xs) x = false
+  | best, [] => ⟨NumLaws.lt_irrefl best, by intro x hx; cases hx⟩
+  | best, y :: ys => by
+    simp only [maxNum]
+    have ih := maxNum_ge (if NumOps.lt best y then y else best) ys
+    have key : ∀ m : N, NumOps.lt m (if NumOps.lt best y then y else best) = false → NumOps.lt m best = false ∧ NumOps.lt m y = false := by
+      intro m hm
+      by_cases hb : NumOps.lt best y = true
+      · simp only [hb, if_true] at hm
+        refine ⟨?_, hm⟩
+        cases h : NumOps.lt m best
+        · rfl
+        · have := NumLaws.lt_trans m best y h hb; rw [hm] at this; cases this
+      · have hb' : NumOps.lt best y = false := by simpa using hb
+        simp only [hb', Bool.false_eq_true, if_false] at hm
+        refine ⟨hm, ?_⟩
+        cases h : NumOps.lt m y
+        · rfl
+        · rcases NumLaws.lt_total best y with h1 | h1 | h1
+          · rw [hb'] at h1; cases h1
+          · subst h1; rw [hm] at h; cases h
+          · have := NumLaws.lt_trans m y best h h1; rw [hm] at this; cases this
+    obtain ⟨h1, h2⟩ := key _ ih.1
+    refine ⟨h1, ?_⟩
+    intro x hx
+    rcases List.mem_cons.mp hx with rfl | hx'
+    · exact h2
+    · exact ih.2 x hx'
+
+/-- `max` on numbers returns an element of the array that no element exceeds; on an empty array, null. -/
+theorem C09_max_numbers [NumLaws N] (x : N) (xs : List N) :
+    maxNum x xs ∈ x :: xs ∧ ∀ y ∈ x :: xs, NumOps.lt (maxNum x xs) y = false := by
+  refine ⟨maxNum_mem x xs, ?_⟩
+  intro y hy
+  rcases List.mem_cons.mp hy with rfl | hy'
+  · exact (maxNum_ge y xs).1
+  · exact (maxNum_ge x xs).2 y hy'
+
+theorem C09_max_min_empty : handle (N := N) .max false [.val (.arr [])] = .ok .null ∧
+    handle (N := N) .min false [.val (.arr [])] = .ok .null ∧ extremeBy (N := N) (fun v => .ok v) true [] = .ok .null := by
+  simp [handle, toArrayNum, allNums, extremeBy]
+
+/-! ### max_by: the FIRST extremal element -/
+
+/-- Invariant of the max_by loop with number keys: the result is the current
+    best unless a later element has a strictly greater key; ties keep the earlier element. -/
+theorem byLoopNum_first_max [NumLaws N] (f : Val N → Res (Val N)) (key : Val N → N) :
+    ∀ (xs : List (Val N)) (bv : N) (bi r : Val N), (∀ x ∈ xs, f x = .ok (.num (key x))) →
+    byLoopNum f (fun cur best => NumOps.lt best cur) bv bi xs = .ok r →
+    (r = bi ∧ ∀ x ∈ xs, NumOps.lt bv (key x) = false) ∨
+    (∃ pre post, xs = pre ++ r :: post ∧ NumOps.lt bv (key r) = true ∧
+      (∀ x ∈ pre, NumOps.lt (key x) (key r) = true ∨ NumOps.lt bv (key r) = true ∧ NumOps.lt (key r) (key x) = false ∧ NumOps.lt (key x) (key r) = true) ∧
+      ∀ x ∈ post, NumOps.lt (key r) (key x) = false)
+  | [], bv, bi, r, _, h => by
+    simp [byLoopNum] at h
+    exact Or.inl ⟨h.symm, by intro x hx; cases hx⟩
+  | y :: ys, bv, bi, r, hf, h => by
+    simp only [byLoopNum, hf y (by simp)] at h
+    have hf' : ∀ x ∈ ys, f x = .ok (.num (key x)) := fun x hx => hf x (by simp [hx])
+    by_cases hb : NumOps.lt bv (key y) = true
+    · simp only [hb, if_true] at h
+      rcases byLoopNum_first_max f key ys (key y) y r hf' h with ⟨rfl, hall⟩ | ⟨pre, post, hxs, hlt, hpre, hpost⟩
+      · refine Or.inr ⟨[], ys, rfl, hb, ?_, hall⟩
+        intro x hx; cases hx
+      · refine Or.inr ⟨y :: pre, post, by simp [hxs], NumLaws.lt_trans _ _ _ hb hlt, ?_, hpost⟩
+        intro x hx
+        rcases List.mem_cons.mp hx with rfl | hx'
+        · exact Or.inl hlt
+        · rcases hpre x hx' with h1 | ⟨_, h2, h3⟩
+          · exact Or.inl h1
+          · exact Or.inl h3
+    · have hb' : NumOps.lt bv (key y) = false := by simpa using hb
+      simp only [hb', Bool.false_eq_true, if_false] at h
+      rcases byLoopNum_first_max f key ys bv bi r hf' h with ⟨rfl, hall⟩ | ⟨pre, post, hxs, hlt, hpre, hpost⟩
+      · exact Or.inl ⟨rfl, by
+          intro x hx
+          rcases List.mem_cons.mp hx with rfl | hx'
+          · exact hb'
+          · exact hall x hx'⟩
+      · refine Or.inr ⟨y :: pre, post, by simp [hxs], hlt, ?_, hpost⟩
+        intro x hx
+        rcases List.mem_cons.mp hx with rfl | hx'
+        · -- key y ≤ bv < key r
+          left
+          rcases NumLaws.lt_total bv (key x) with h1 | h1 | h1
+          · rw [hb'] at h1; cases h1
+          · rw [← h1]; exact hlt
+          · exact NumLaws.lt_trans _ _ _ h1 hlt
+        · exact hpre x hx'
+
+/-- `max_by`: the result is an element with maximal key, and it is the FIRST
+    such element: every earlier element has a strictly smaller key. -/
+theorem C09_max_by_first_maximal [NumLaws N] (f : Val N → Res (Val N)) (key : Val N → N) (x : Val N) (xs : List (Val N)) (r : Val N)
+    (hf : ∀ y ∈ x :: xs, f y = .ok (.num (key y))) (h : extremeBy f true (x :: xs) = .ok r) :
+    ∃ pre post, x :: xs = pre ++ r :: post ∧ (∀ y ∈ pre, NumOps.lt (key y) (key r) = true) ∧
+      ∀ y ∈ post, NumOps.lt (key r) (key y) = false := by
+  simp only [extremeBy, hf x (by simp), if_true] at h
+  rcases byLoopNum_first_max f key xs (key x) x r (fun y hy => hf y (by simp [hy])) h with ⟨rfl, hall⟩ | ⟨pre, post, hxs, hlt, hpre, hpost⟩
+  · refine ⟨[], xs, rfl, ?_, hall⟩
+    intro y hy; cases hy
+  · refine ⟨x :: pre, post, by simp [hxs], ?_, hpost⟩
+    intro y hy
+    rcases List.mem_cons.mp hy with rfl | hy'
+    · exact hlt
+    · rcases hpre y hy' with h1 | ⟨_, _, h3⟩
+      · exact h1
+      · exact h3
+
+/-! ### merge: later arguments win -/
+
+omit [NumOps N] in
+theorem lookup_insert_same (k : Bytes) (v : Val N) : ∀ l : List (Bytes × Val N), Val.lookup k (Val.insert k v l) = some v
+  | [] => by simp [Val.insert, Val.lookup]
+  | (k', v') :: rest => by
+    simp only [Val.insert]
+    split
+    · simp [Val.lookup]
+    · rename_i hne
+      split
+      · simp [Val.lookup]
+      · simp only [Val.lookup, hne, if_false]
+        exact lookup_insert_same k v rest
+
+omit [NumOps N] in
+theorem lookup_insert_other (k j : Bytes) (v : Val N) (hjk : j ≠ k) :
+    ∀ l : List (Bytes × Val N), Val.lookup j (Val.insert k v l) = Val.lookup j l
+  | [] => by simp [Val.insert, Val.lookup, Ne.symm hjk]
+  | (k', v') :: rest => by
+    simp only [Val.insert]
+    split
+    · rename_i hk; subst hk; simp [Val.lookup, Ne.symm hjk]
+    · split
+      · simp [Val.lookup, Ne.symm hjk]
+      · simp only [Val.lookup]
+        split
+        · rfl
+        · exact lookup_insert_other k j v hjk rest
+
+omit [NumOps N] in
+/-- Merging the members of an object into an accumulator: a key of the object
+    gets the object's (last) value, other keys keep theirs. -/
+theorem lookup_foldl_insert (j : Bytes) : ∀ (kvs acc : List (Bytes × Val N)),
+    Val.lookup j (kvs.foldl (fun m kv => Val.insert kv.1 kv.2 m) acc) =
+      match Val.lookup j kvs.reverse with
+      | some v => some v
+      | none => Val.lookup j acc
+  | [], acc => by simp [Val.lookup]
+  | (k, v) :: rest, acc => by
+    simp only [List.foldl_cons, List.reverse_cons]
+    rw [lookup_foldl_insert j rest (Val.insert k v acc)]
+    have happ : ∀ (l : List (Bytes × Val N)), Val.lookup j (l ++ [(k, v)]) =
+        match Val.lookup j l with | some w => some w | none => if k = j then some v else none := by
+      intro l
+      induction l with
+      | nil => simp [Val.lookup]
+      | cons p ps ih => obtain ⟨pk, pv⟩ := p; simp only [List.cons_append, Val.lookup]; split <;> simp_all
+    rw [happ]
+    cases hl : Val.lookup j rest.reverse with
+    | some w => rfl
+    | none =>
+      simp only []
+      by_cases hkj : k = j
+      · subst hkj; simp [lookup_insert_same]
+      · simp [hkj, lookup_insert_other k j v (Ne.symm hkj)]
+
+/-- `merge(a, b)`: a key present in `b` has `b`'s value, otherwise `a`'s (objects with unique keys). -/
+theorem C09_merge_later_wins (a b : List (Bytes × Val N)) (j : Bytes) (r : Val N)
+    (h : handle (N := N) .merge false [.val (.obj a), .val (.obj b)] = .ok r) :
+    ∃ kvs, r = .obj kvs ∧
+      Val.lookup j kvs = (match Val.lookup j b.reverse with
+        | some v => some v
+        | none => match Val.lookup j a.reverse with | some v => some v | none => none) := by
+  simp only [handle, Bool.false_eq_true, if_false, mergeLoop] at h
+  cases h
+  refine ⟨_, rfl, ?_⟩
+  rw [lookup_foldl_insert j b, lookup_foldl_insert j a]
+  simp [Val.lookup]
+
+/-! ### map, reverse, keys/values, not_null, avg -/
+
+omit [NumOps N] in
+/-- `map`: one result per element, in order, nulls kept; the expression is
+    evaluated once per element with that element as the current node. -/
+theorem C09_map (f : Val N → Res (Val N)) : ∀ (xs ys : List (Val N)), mapLoop f xs = .ok ys →
+    ys.length = xs.length ∧ ∀ i (hi : i < xs.length) (hj : i < ys.length), f xs[i] = .ok ys[i]
+  | [], ys, h => by simp [mapLoop] at h; subst h; exact ⟨rfl, by intro i hi; cases hi⟩
+  | x :: xs, ys, h => by
+    simp only [mapLoop] at h
+    cases hfx : f x with
+    | ok y =>
+      rw [hfx] at h
+      cases hm : mapLoop f xs with
+      | ok zs =>
+        rw [hm] at h; cases h
+        obtain ⟨hl, hi⟩ := C09_map f xs zs hm
+        refine ⟨by simp [hl], ?_⟩
+        intro i h1 h2
+        cases i with
+        | zero => exact hfx
+        | succ j => exact hi j (by simpa using h1) (by simpa using h2)
+      | err e => rw [hm] at h; cases h
+      | panic p => rw [hm] at h; cases h
+    | err e => rw [hfx] at h; cases h
+    | panic p => rw [hfx] at h; cases h
+
+theorem C09_reverse (xs : List (Val N)) (s : Bytes) :
+    handle .reverse false [.val (.arr xs)] = .ok (.arr xs.reverse) ∧
+    handle (N := N) .reverse false [.val (.str s)] = .ok (.str (Utf8.encodeRunes (Utf8.runes s).reverse)) := by
+  simp [handle]
+
+/-- `length` of a string counts code points. -/
+theorem C09_length_string (s : Bytes) :
+    handle (N := N) .length false [.val (.str s)] = .ok (.num (NumOps.ofNat (Utf8.runes s).length)) := by
+  simp [handle, Utf8.runeCount]
+
+theorem C09_keys_values (kvs : List (Bytes × Val N)) :
+    handle .keys false [.val (.obj kvs)] = .ok (.arr (kvs.map (fun kv => .str kv.1))) ∧
+    handle .values false [.val (.obj kvs)] = .ok (.arr (kvs.map (·.2))) := by
+  simp [handle]
+
+def firstNonNull : List (Val N) → Val N
+  | [] => .null
+  | .null :: rest => firstNonNull rest
+  | v :: _ => v
+
+/-- `not_null`: the first argument that is not null, or null. -/
+theorem C09_not_null (vs : List (Val N)) : handle .notNull false (vs.map .val) = .ok (firstNonNull vs) := by
+  simp only [handle, Bool.false_eq_true, if_false]
+  induction vs with
+  | nil => rfl
+  | cons v rest ih =>
+    cases v <;> simp only [List.map_cons, List.find?, firstNonNull]
+    exact ih
+
+theorem C09_avg (xs : List (Val N)) (ns : List N) (hn : allNums xs = some ns) (hne : xs ≠ []) :
+    handle .avg false [.val (.arr xs)] = .ok (.num (NumOps.div (sumNums ns) (NumOps.ofNat xs.length))) ∧
+    handle (N := N) .avg false [.val (.arr [])] = .ok .null := by
+  refine ⟨?_, rfl⟩
+  have hloop : ∀ (ys : List (Val N)) (ms : List N) (acc : N), allNums ys = some ms → avgLoop acc ys = .ok (ms.foldl NumOps.add acc) := by
+    intro ys
+    induction ys with
+    | nil => intro ms acc h; simp [allNums] at h; subst h; rfl
+    | cons y ys ih =>
+      intro ms acc h
+      cases y <;> simp [allNums] at h
+      obtain ⟨r, hr, rfl⟩ := h
+      simp only [avgLoop, List.foldl_cons]
+      exact ih r _ hr
+  have he : xs.isEmpty = false := by cases xs <;> simp_all
+  simp only [handle, Bool.false_eq_true, if_false, he, hloop xs ns _ hn, sumNums]
 
 end Jmes.Props
